@@ -423,7 +423,7 @@ func TestSafety(t *testing.T) {
 		if flagRe {
 			flags |= slog.Lprivacypathregexp
 		}
-		slog.SetFlags(flags)
+		vlib.SetFlagsVia(rapid.SampledFrom([]int{0, 0, 1, 2, 3}).Draw(t, "flagsHow"), flags, slog.Lprivacypath|slog.Lprivacypathregexp|slog.Lcaller)
 		h := strings.Join(hist, "; ") + fmt.Sprintf(" flags{privacypath=%v regexp=%v}", flagPath, flagRe)
 		npaths := rapid.IntRange(1, 4).Draw(t, "npaths")
 		var paths []string
